@@ -26,7 +26,7 @@ func init() {
 
 func ruleL1(c *Ctx, id string) {
 	V, P, R := c.V, c.P, c.R
-	R.Rule(id, "ascending acquisition order: every acquisition site that may execute while its transaction holds an inode lock matches an ordering idiom", 12)
+	R.Rule(id, "ascending acquisition order: every acquisition site that may execute while its transaction holds an inode lock matches an ordering idiom", 24)
 	t := c.tsPreamble(id)
 	type site struct {
 		fn      *ssa.Function
